@@ -174,6 +174,17 @@ def const_walk(bi, start_bb, stop_at, max_steps=6000):
                         sk = _pkey(op.place)
                         if sk is not None:
                             add.update(copy_from(e, fk, sk))
+            elif rv.k == "bin" and rv.j.get("op") in ("Eq", "Ne", "Lt", "Le", "Gt", "Ge"):
+                vals = []
+                for op in rv.ops:
+                    if op.place is None:
+                        vals.append(op.const_bool() if op.const_bool() is not None else op.const_int())
+                    else:
+                        sk = _pkey(op.place)
+                        vals.append(e.get(sk) if sk is not None else None)
+                if None not in vals:
+                    a0, b0 = int(vals[0]), int(vals[1])
+                    add[dk] = {"Eq": a0 == b0, "Ne": a0 != b0, "Lt": a0 < b0, "Le": a0 <= b0, "Gt": a0 > b0, "Ge": a0 >= b0}[rv.j["op"]]
             elif rv.k == "discr" and rv.place is not None:
                 sk = _pkey(rv.place)
                 if sk is not None:
@@ -193,7 +204,14 @@ def const_walk(bi, start_bb, stop_at, max_steps=6000):
         succs = bi.cfg.succ[bb]
         if t.k == "call" and t.dest is not None:
             dk = _pkey(t.dest)
+            known = None
+            if t.callee is not None and t.callee.path.endswith("intrinsics::discriminant_value") and t.args and t.args[0].place is not None:
+                sk = _pkey(t.args[0].place)          # derived PartialEq of a field-less enum compares discriminant_value(self / other)
+                if sk is not None:
+                    known = e.get((sk[0], sk[1] + (("#", "discr"),)))
             kill(e, dk if dk is not None else (t.dest.local, ()))
+            if known is not None and dk is not None:
+                e[dk] = known
             # a `&mut` to a tracked local handed to a call may change it
             for a in t.args:
                 if a.place is not None and a.place.is_local():
